@@ -322,6 +322,18 @@ def finite_observations(st, r):
             obs.append(Obs("unpack", "(\\ -> (%s := s; [%s]))()" % (names, vals), k))
         obs.append(Obs("unpack-splat", "(\\ -> (u0, ...u1 := s; [u0, u1]))()"))
         obs.append(Obs("unpack-splat", "(\\ -> (...u0, u1 := s; [u0, u1]))()", "tail"))
+    # observations of a stream DERIVED from the variable (anything cached on s -- a length, a position -- must not
+    # be carried over to the shorter stream): len / truthiness / last / unpacking of s drop k, s[k:], tail(s)
+    for k in sorted({1, max(n - 1, 0), n, n + 1}):
+        for form in ("s drop %d" % k, "s[%d:]" % k):
+            obs.append(Obs("derived-len", "len(%s)" % form, k))
+            obs.append(Obs("derived-truthy", "if (%s) 1 else 0" % form, k))
+        obs.append(Obs("derived-last", "last(s drop %d)" % k, k))
+    obs.append(Obs("derived-len", "len(tail(s))", 1, "tail"))
+    if 2 <= n <= 8:
+        names = ", ".join("u%d" % i for i in range(n - 1)) + ("," if n - 1 == 1 else "")
+        vals = ", ".join("u%d" % i for i in range(n - 1))
+        obs.append(Obs("derived-unpack", "(\\ -> (%s := s drop 1; [%s]))()" % (names, vals), 1))
     r.shuffle(obs)
     # the reference observation may come anywhere; one more list(s) always closes the history
     obs.append(Obs("list", "list(s)"))
@@ -389,6 +401,16 @@ def expect_finite(ob, L):
         return ("v", {"l": L[ob.arg:]})
     if k == "in":
         return ("v", {"i": "1" if to_canon(ob.arg) in L else "0"})
+    if k == "derived-len":
+        if ob.cls == "tail":
+            return ("v", {"i": str(max(n - 1, 0))})          # tail is s[1:]: it clamps
+        return ("v", {"i": str(len(L[ob.arg:]))})
+    if k == "derived-truthy":
+        return ("v", {"i": "1" if L[ob.arg:] else "0"})
+    if k == "derived-last":
+        return ("v", L[ob.arg:][-1]) if L[ob.arg:] else ("throw",)
+    if k == "derived-unpack":
+        return ("v", {"l": L[1:]})
     if k == "unpack":
         return ("v", {"l": L}) if n == ob.arg else ("throw",)
     if k == "unpack-splat":
